@@ -1386,6 +1386,14 @@ impl PackageBuilder {
             ));
         }
 
+        if let Some(packager) = self.packager {
+            actual_records.push(IndexEntry::new(
+                IndexTag::RPMTAG_PACKAGER,
+                offset,
+                IndexData::StringTag(packager),
+            ));
+        }
+
         if let Some(url) = self.url {
             actual_records.push(IndexEntry::new(
                 IndexTag::RPMTAG_URL,
